@@ -39,6 +39,9 @@ func scenarioFromJSON(m map[string]interface{}) (*explore.Scenario, error) {
 	sc := &explore.Scenario{Name: fmt.Sprint(m["name"]), Base: fmt.Sprint(m["base"]), Cfg: fmt.Sprint(m["cfg"]),
 		FSYield: boolField(m, "fs_yield"), TrackRaces: boolField(m, "track_races"), Worker: boolField(m, "worker"), Poison: boolField(m, "poison"),
 		QuietPop: boolField(m, "quiet_pop"), YieldSeg: boolField(m, "yield_seg"), YieldDirOnly: boolField(m, "yield_dir_only"), NoPrivateQuiet: boolField(m, "no_private_quiet"), Unclean: boolField(m, "unclean"), Record: true}
+	if w, ok := m["wrap_fs"].(string); ok {
+		sc.WrapFS = w
+	}
 	if f, ok := m["tick_budget"].(float64); ok {
 		sc.TickBudget = int(f)
 	}
@@ -92,6 +95,13 @@ func init() {
 			check = c12Check(c, base, sc, map[string]*explore.Recovered{})
 		case "C13":
 			check = c13OpenCloseCheck(base)
+		case "C17":
+			scratch, err := os.MkdirTemp("/dev/shm", "pogverif-replay-")
+			if err != nil {
+				return "", err
+			}
+			defer os.RemoveAll(scratch)
+			check = c17ConcCheck(c, base, sc, scratch)
 		default:
 			lin := linCheck(base)
 			check = func(r *explore.ConcRun) (string, string) {
